@@ -77,7 +77,7 @@ def run(runobj, spec, timeout=10.0, only=None, verbose=False):
     pid = runobj.pid
     eng = engine()
     cs = contracts_for(pid, only)
-    keep = os.path.join(os.path.dirname(os.path.dirname(os.path.abspath(__file__))), "out", "smt", pid)
+    keep = os.path.join(os.environ.get("VERIF_OUT") or os.path.dirname(os.path.dirname(os.path.abspath(__file__))), "out", "smt", pid)
     res = {"functions": [], "obligations": 0, "discharged": 0, "undecided": [], "out_of_subset": [],
            "failed": [], "by_backend": {}, "solver_s": 0.0, "covers_sat": 0, "dead_paths": 0,
            "trusted_base": set(), "samples": [], "assumed_contracts": set(), "trivial": 0}
